@@ -333,6 +333,40 @@ NEUTRAL = [
                     added.insert(v.clone());
                     removed.remove(v);
                 }""")]),
+    # twins of the round-6 rules (fourth session)
+    dict(id="N35-vec-decode-clamps-only-the-preallocation", file="crates/serialize/src/decode.rs",
+         edits=[("""        let len = decoder.read_usize()?;
+        let mut vec = Self::with_capacity(len);""", """        let len = decoder.read_usize()?;
+        let mut vec = Self::with_capacity(len.min(1 << 16));""")]),
+    dict(id="N36-abort-callee-guard-as-two-early-returns", file=CG + "computing.rs",
+         edits=[("""        if request.in_flight > 0 || request.kept {
+            return;
+        }""", """        if request.in_flight != 0 {
+            return;
+        }
+        if request.kept {
+            return;
+        }""")]),
+    dict(id="N37-flush-replaces-the-current-batch-keeping-its-position", file=ST + "write_manager/write_behind.rs",
+         edits=[("""        let to_commit_db_batch =
+            std::mem::replace(&mut self.db_write_batch, db.write_batch());
+        let to_commit_logical_batches =
+            std::mem::take(&mut self.processed_logical_batch);
+""", """        let fresh = CurrentBatch { processed_logical_batch: Vec::new(), db_write_batch: db.write_batch(), expected_epoch: self.expected_epoch };
+        let CurrentBatch { processed_logical_batch: to_commit_logical_batches, db_write_batch: to_commit_db_batch, .. } = std::mem::replace(self, fresh);
+""")]),
+    dict(id="N38-clean-query-rebuilds-node-info-through-the-constructor", file=CG + "database.rs",
+         edits=[("""            let mut current_node_info = self.node_info().await.unwrap();
+
+            current_node_info.transitive_firewall_callees = x;
+            current_node_info.transitive_firewall_callees_fingerprint = self
+                .engine()
+                .hash(&current_node_info.transitive_firewall_callees);
+
+            Some((current_node_info, new_observations))""", """            let current_node_info = self.node_info().await.unwrap();
+            let tfc_fingerprint = self.engine().hash(&x);
+
+            Some((NodeInfo::new(current_node_info.value_fingerprint(), tfc_fingerprint, x), new_observations))""")]),
 ]
 
 
